@@ -1542,6 +1542,7 @@ package engine
 //@   property C11
 //@   nosafety
 //@   resolves-before-inspecting
+//@   loop 1 invariant[the-inverse-renaming-is-kept] forall a Variable :: has(s, a) ==> has(r, s[a]) && r[s[a]] == a
 //@   loop 1 invariant[the-renaming-is-injective] forall a Variable, b Variable :: has(s, a) && has(s, b) && s[a] == s[b] ==> a == b
 
 //@ func (*clause).compileBody
@@ -1549,3 +1550,26 @@ package engine
 //@   nosafety
 //@   at-store seqIterator.Env requires[goals-are-read-in-the-clause-environment] v == env
 //@   at-store seqIterator.Seq requires[the-whole-body] v == body
+
+//@ func renamedCopy
+//@   trusted
+//@   modifies nothing
+
+//@ func FindAll
+//@   property C11
+//@   nosafety
+//@   frozen env, template, instances, k, vm, goal
+
+//@ func FindAll$1
+//@   property C11
+//@   nosafety
+//@   at-call Call requires[solves-the-goal-in-the-callers-environment] a0 == vm && a1 == goal && a3 == env
+//@   at-call Unify requires[the-result-is-unified-in-the-callers-environment] a0 == vm && a1 == instances && a3 == k && a4 == env
+
+//@ func FindAll$1$1
+//@   property C11
+//@   nosafety
+//@   bind c, cerr = renamedCopy#1
+//@   at-call renamedCopy requires[a-copy-of-the-template-as-instantiated-by-this-solution] a0 == template && a2 == env
+//@   at-call append requires[answers-are-kept-in-solution-order] a0 == answers && len(a1) == 1 && a1[0] == c
+//@   ensures[asks-for-the-next-solution] cerr == nil ==> result == falsePromise
